@@ -52,33 +52,49 @@ impl<'a> PathBuilder<'a> {
 }
 
 fn match_path_segments(segments: &[&str], old_segments: &[PathSegment]) -> Option<HashSet<usize>> {
-    // This hurt my eyes
-
-    let mut optionals = HashSet::new();
-
-    let mut segments_iter = old_segments.iter().enumerate();
-    'outer: for seg in segments {
-        'inner: loop {
-            let (index, next_seg) = segments_iter.next()?;
-
-            match next_seg {
-                PathSegment::Unit => continue 'inner,
-                PathSegment::Param(_) => continue 'outer,
-                PathSegment::OptionalParam(to_match) if to_match == seg => {
-                    optionals.insert(index);
-                    continue 'outer;
-                }
-                PathSegment::OptionalParam(_) => continue 'inner,
-                PathSegment::Static(to_match) if to_match.is_empty() => continue 'inner,
-                PathSegment::Static(to_match) if to_match == seg => continue 'outer,
-                PathSegment::Static(_) => return None,
-                PathSegment::Splat(_) => return Some(optionals),
+    // `index` is the position of `old_segments[0]` in the route,
+    // `optionals` receives the positions of the optional params that are present in the path.
+    fn inner(
+        segments: &[&str],
+        old_segments: &[PathSegment],
+        index: usize,
+        optionals: &mut HashSet<usize>,
+    ) -> bool {
+        let Some((next_seg, old_rest)) = old_segments.split_first() else {
+            // if both are empty, perfect match !
+            return segments.is_empty();
+        };
+        let present = segments.split_first();
+        match next_seg {
+            PathSegment::Unit => inner(segments, old_rest, index + 1, optionals),
+            PathSegment::Static(to_match) if to_match.is_empty() => {
+                inner(segments, old_rest, index + 1, optionals)
             }
+            PathSegment::Static(to_match) => match present {
+                Some((seg, rest)) if to_match == seg => inner(rest, old_rest, index + 1, optionals),
+                _ => false,
+            },
+            PathSegment::Param(_) => match present {
+                Some((_, rest)) => inner(rest, old_rest, index + 1, optionals),
+                None => false,
+            },
+            PathSegment::OptionalParam(_) => {
+                // an optional param takes the segment unless the rest of the route needs it.
+                if let Some((_, rest)) = present {
+                    if inner(rest, old_rest, index + 1, optionals) {
+                        optionals.insert(index);
+                        return true;
+                    }
+                }
+                inner(segments, old_rest, index + 1, optionals)
+            }
+            // matches whatever is left, nothing included.
+            PathSegment::Splat(_) => true,
         }
     }
 
-    // if iter is empty, perfect match !
-    segments_iter.next().is_none().then_some(optionals)
+    let mut optionals = HashSet::new();
+    inner(segments, old_segments, 0, &mut optionals).then_some(optionals)
 }
 
 fn get_locale_from_path<L: Locale>(path: &str, base_path: &str) -> Option<L> {
